@@ -299,6 +299,28 @@ class Env:
             raise ApiRunFailed(p.stderr[-1200:])
         return [{k: bytes.fromhex(v) for k, v in call.items()} for call in json.loads(p.stdout.strip().splitlines()[-1])]
 
+    def helper_calls(self, keys: typing.List[str], calls: typing.List[dict]) -> typing.List[typing.Dict[str, bytes]]:
+        """One interpreter, one nunavut.generate_types() call per entry of calls ({"lang", "omit"}). Files per call."""
+        import subprocess
+        import sys
+
+        rootdir = self.materialise(keys)
+        out = self.tmp / "out"
+        job = {"t": FAKE_T, "route": "helper", "root": str(rootdir), "out": str(out), "calls": calls}
+        env = dict(os.environ, PYTHONHASHSEED="0", PYTHONDONTWRITEBYTECODE="1")
+        self.runs += len(calls)
+        p = subprocess.run([sys.executable, "-m", "vf.props.c10", "--api-worker"], input=json.dumps(job), capture_output=True, text=True, env=env, timeout=900)
+        shutil.rmtree(out, ignore_errors=True)
+        if p.returncode != 0:
+            raise ApiRunFailed(p.stderr[-1200:])
+        return [{k: bytes.fromhex(v) for k, v in call.items()} for call in json.loads(p.stdout.strip().splitlines()[-1])]
+
+    def helper_model(self, keys: typing.List[str], lang: str, omit: bool) -> typing.Dict[str, bytes]:
+        mk = ("helper", self.vi, lang, omit)
+        if mk not in self.model:
+            self.model[mk] = self.helper_calls(keys, [{"lang": lang, "omit": omit}])[0]
+        return self.model[mk]
+
     def api_model(self, keys: typing.List[str], lang: str, omit: bool) -> typing.Dict[str, bytes]:
         mk = ("api", self.vi, lang, omit)
         if mk not in self.model:
@@ -337,6 +359,18 @@ def _api_worker() -> int:
     import pydsdl
     from nunavut.lang import Language, LanguageContextBuilder
 
+    if job.get("route") == "helper":
+        # nunavut.generate_types(): "the most direct way to generate code" -- default settings, possibly another language per call
+        res = []
+        out = pathlib.Path(job["out"])
+        for call in job["calls"]:
+            shutil.rmtree(out, ignore_errors=True)
+            l_, _, opt_ = API_LANGS[call["lang"]]
+            nunavut.generate_types(l_, pathlib.Path(job["root"]), out, omit_serialization_support=call["omit"], allow_unregulated_fixed_port_id=True,
+                                   language_options=dict(opt_), include_experimental_languages=True)
+            res.append({k: v.hex() for k, v in tool.tree_files(out).items()})
+        _sys.stdout.write("\n" + _json.dumps(res) + "\n")
+        return 0
     lang, _, options = API_LANGS[job["lang"]]
     lctx = (LanguageContextBuilder(include_experimental_languages=True).set_target_language(lang)
             .set_target_language_configuration_override(Language.WKCV_LANGUAGE_OPTIONS, options).create())
@@ -521,6 +555,47 @@ def make_machine(ctx: core.Ctx, configs: typing.List[dict]):
                                  f"generator objects in a fresh process: {first_diff(exp, got) if got is not None else 'missing'}", {"universe": env.variants[0], "trace": list(self.trace)})
                         raise AssertionError("type file differs from model")
 
+        @rule(calls=st.lists(st.tuples(st.sampled_from(["c", "cpp", "py"]), st.booleans()), min_size=2, max_size=4), variant=st.integers(0, 1))
+        def helper_calls_in_one_interpreter(self, calls, variant):
+            self.helper_step({"helper": True, "calls": [{"lang": l, "omit": o} for l, o in calls], "variant": variant})
+
+        def helper_step(self, step: dict) -> None:
+            """
+            nunavut.generate_types() several times in ONE interpreter, each call possibly for another language: every call must
+            produce, for every type, what the same single call produces in a fresh process.
+            """
+            env = self.env
+            assert env is not None
+            env.select(step.get("variant", 0))
+            keys = list(env.order)
+            self.trace.append(step)
+            try:
+                got_calls = env.helper_calls(keys, step["calls"])
+                models = {(c["lang"], c["omit"]): env.helper_model(keys, c["lang"], c["omit"]) for c in step["calls"]}
+            except ApiRunFailed as e:
+                ctx.fail("C10|helper|run-failed|api", f"nunavut.generate_types failed for {keys}: {e}", {"universe": env.variants[0], "trace": list(self.trace)})
+                raise AssertionError("helper run failed")
+            ctx.event("api.helper-calls", len(step["calls"]))
+            if len({c["lang"] for c in step["calls"]}) > 1:
+                ctx.event("api.helper-calls-for-several-languages")
+            self.inproc_runs += len(step["calls"])
+            self.shared_types += 1
+            self.not_first = True
+            for i, (c, files) in enumerate(zip(step["calls"], got_calls)):
+                lang = c["lang"]
+                cfg = {"name": lang, "argv": ["--target-language", API_LANGS[lang][0]], "ext": API_LANGS[lang][1]}
+                for k in keys:
+                    rel = env.rel_file(k, cfg)
+                    exp, got = models[(lang, c["omit"])].get(rel), files.get(rel)
+                    if exp is None:
+                        raise core.HarnessError(f"helper model lacks {rel}")
+                    if got != exp:
+                        kind = "type-file-missing" if got is None else classify(exp, got)
+                        sig = f"C10|{lang}|{kind}|generate_types-helper|call-{'first' if i == 0 else 'later'}"
+                        ctx.fail(sig, f"{rel}: call {i + 1} of {step['calls']} (nunavut.generate_types in one interpreter) differs from the same call alone in a "
+                                 f"fresh process: {first_diff(exp, got) if got is not None else 'missing'}", {"universe": env.variants[0], "trace": list(self.trace)})
+                        raise AssertionError("type file differs from model")
+
         @rule(cfg=st.sampled_from([c["name"] for c in configs]))
         def run_whole_inproc(self, cfg):
             self.step({"seeds": None, "cfg": cfg, "inproc": True})
@@ -535,7 +610,7 @@ def make_machine(ctx: core.Ctx, configs: typing.List[dict]):
                     ("c10", self.env.u, self.trace),
                     nontrivial=self.inproc_runs >= 2 and self.shared_types >= 1 and self.not_first,
                     sample={"types": self.env.order, "steps": self.trace[:6]},
-                    classes=["machines", f"steps={min(len(self.trace), 8)}"] + sorted({"cfg." + (s["cfg"] if "cfg" in s else "api-" + s["lang"]) for s in self.trace}) + (["fresh_hashseed_run"] if any(not s.get("inproc", True) for s in self.trace) else [])
+                    classes=["machines", f"steps={min(len(self.trace), 8)}"] + sorted({"cfg." + (s["cfg"] if "cfg" in s else "helper" if s.get("helper") else "api-" + s["lang"]) for s in self.trace}) + (["fresh_hashseed_run"] if any(not s.get("inproc", True) for s in self.trace) else [])
                     + (["revision_run"] if len({s.get("variant", 0) for s in self.trace if s.get("inproc", True)}) > 1 else []) + (["has_revision_variant"] if len(self.env.variants) > 1 else []),
                 )
                 ctx.event("tool_runs", self.env.runs)
@@ -574,6 +649,9 @@ def run(ctx: core.Ctx):
         for lang in ("c", "cpp", "py"):
             m.api_step({"api": True, "lang": lang, "omits": [False, True, False], "variant": 0})
             m.api_step({"api": True, "lang": lang, "omits": [True, False], "variant": 0})
+        # the helper route across languages in one interpreter (a language that configures no post-processors before and after
+        # languages that do)
+        m.helper_step({"helper": True, "calls": [{"lang": "cpp", "omit": False}, {"lang": "c", "omit": False}, {"lang": "cpp", "omit": False}, {"lang": "py", "omit": True}, {"lang": "cpp", "omit": True}], "variant": 0})
         ctx.event("directed_history_completed")
     except AssertionError:
         pass
@@ -592,12 +670,12 @@ def replay(ctx: core.Ctx, case):
     sub = core.Ctx(ctx.prop, ctx.tier, ctx.seed)
     try:
         for step in case["trace"]:
-            if step.get("api"):
+            if step.get("api") or step.get("helper"):
                 M = make_machine(sub, CONFIGS)
                 m = M()
                 m.env = env
                 try:
-                    m.api_step(step)
+                    m.api_step(step) if step.get("api") else m.helper_step(step)
                 except AssertionError:
                     break
                 continue
